@@ -155,7 +155,8 @@ class CredRig:
                                salt or b"\0" * 8, iv or b"\0" * 16)
                 for f in ("error_num", "error_str", "data"):
                     if r[f] != m[f]:
-                        diff = "ENC_RSP field %s: daemon %r, model %r" % (f, r[f][:60], m[f][:60])
+                        cut = (lambda v: v[:60] if isinstance(v, (bytes, str)) else v)
+                        diff = "ENC_RSP field %s: daemon %r, model %r" % (f, cut(r[f]), cut(m[f]))
                         break
         if diff:
             self.mismatches.append({"op": "encode", "uid": uid, "gid": gid, "retry": retry, "now": self.now,
